@@ -56,3 +56,115 @@ Theorem dmm_walk_terminates : forall sds sq, topo sds sq -> forall subncol cs nr
   dmm_walk sds subncol cs nrow ncol (S (length sds)) idx0 s0 s (cellof subncol cs ncol s) < nrow * ncol.
 Proof. exact NetBound.dmm_walk_terminates. Qed.
 Print Assumptions dmm_walk_terminates.
+
+(* ------------------------------------------------------------------------------------------------------------------
+   FUEL IS NEVER THE REASON A LOOP STOPS.  Every Python `while` loop is modelled as a Fixpoint over explicit fuel, and
+   the model's entry points pass a concrete amount.  The theorems below say that on the documented domain the loop ends
+   through its own exit test within that amount: giving it any amount MORE changes nothing (`..._fuel (given + extra) =
+   the model`), with the explicit iteration bounds -- the number of cells, or 9 x the number of cells for the spreading
+   queue.  `X_fuel` is the model entry point X with its fuel made a parameter (definitions in theories/Term*.v). *)
+From PF Require Import Flood Spread Subbas Ucat Vect ElevSpec.
+From PF Require Import TermTracem TermSeg TermSwalk TermIhu TermClimb TermRank TermFlood TermSpread TermPfafLoop.
+Local Open Scope nat_scope.
+
+(* dem.adjust_elevation: the upstream-to-downstream trace, and the whole pass for every 1-D fixer *)
+Theorem tracem_bound : forall ds sq, topo ds sq -> forall mask i, In i sq ->
+  let p := tracem ds (length ds) mask i in
+  1 <= length p <= length ds /\ NoDup p /\ (forall x, In x p -> x < length ds) /\
+  stopb ds mask (last p i) = true /\
+  (forall j, S j < length p -> stopb ds mask (nth j p 0) = false /\ nth (S j) p 0 = dsf ds (nth j p 0)).
+Proof. exact TermTracem.tracem_bound. Qed.
+Print Assumptions tracem_bound.
+Theorem adjust_terminates : forall F ds sq, topo ds sq -> forall elv extra,
+  adjust_fuel (length ds + extra) F ds sq elv = adjust F ds sq elv.
+Proof. exact TermTracem.adjust_terminates. Qed.
+Print Assumptions adjust_terminates.
+
+(* subgrid.segment_*: river segment walks;  streams.streams: the vectorisation walk *)
+Theorem segment_paths_terminates : forall nxt sq, topo nxt sq -> complete nxt sq -> forall outs mask incl extra,
+  segment_paths_fuel (length nxt + extra) nxt outs mask incl = segment_paths nxt outs mask incl.
+Proof. exact TermSeg.segment_paths_terminates. Qed.
+Print Assumptions segment_paths_terminates.
+Theorem segment_paths_short : forall nxt sq, topo nxt sq -> complete nxt sq -> forall outs mask incl p,
+  In p (segment_paths nxt outs mask incl) -> length p <= length nxt.
+Proof. exact TermSeg.segment_paths_short. Qed.
+Print Assumptions segment_paths_short.
+Theorem streams_terminates : forall ds sq, topo ds sq -> forall mask max_len extra,
+  streams_fuel (length ds + extra) ds sq mask max_len = streams ds sq mask max_len.
+Proof. exact TermSwalk.streams_terminates. Qed.
+Print Assumptions streams_terminates.
+
+(* upscale.ihu_nextidx (eam_plus): the walk to the next outlet pixel never runs out of fuel; its "no answer" exit is
+   characterised exactly (the exit cell is not an 8-neighbour and no effective-area pixel was passed) *)
+Theorem up_eam_plus_terminates : forall sds sq, topo sds sq -> complete sds sq -> forall upa subnrow subncol cs ea extra,
+  up_eam_plus_fuel (S (length sds) + extra) sds upa subnrow subncol cs ea = up_eam_plus sds upa subnrow subncol cs ea.
+Proof. exact TermIhu.up_eam_plus_terminates. Qed.
+Print Assumptions up_eam_plus_terminates.
+Theorem ihu_walk_none_iff : forall sds subncol cs ncol ea sq, topo sds sq -> forall out idx0 s, In s sq ->
+  exists k, k < length sds /\
+    (forall j, j < k -> istop sds subncol cs ncol out (iter sds j s) = false) /\
+    istop sds subncol cs ncol out (iter sds k s) = true /\
+    (ihu_walk sds subncol cs ncol ea (S (length sds)) out idx0 s None = None <->
+     in_d8 idx0 (cellof subncol cs ncol (iter sds (S k) s)) ncol = false /\
+     (forall j, 1 <= j <= k -> eaf ea (iter sds j s) = false)).
+Proof. exact TermIhu.ihu_walk_none_iff. Qed.
+Print Assumptions ihu_walk_none_iff.
+
+(* basins.subbasins_pfafstetter: the climbs along main stems and the work loop *)
+Theorem climb_fuel : forall ds sq, topo ds sq -> complete ds sq -> forall main,
+  (forall x, nth x main (length ds) < length ds -> dsf ds (nth x main (length ds)) = x /\ nth x main (length ds) <> x) ->
+  forall stop lab branch cur extra,
+  climb (length ds + extra) (length ds) main stop lab branch cur = climb (length ds) (length ds) main stop lab branch cur.
+Proof. exact TermClimb.climb_fuel. Qed.
+Print Assumptions climb_fuel.
+Theorem subbasins_pfafstetter_terminates : forall ds sq, topo ds sq -> forall pits main uparea mask depth extra,
+  length pits <= 2 * length ds + 8 ->
+  subbasins_pfafstetter_fuel (4 * length ds + 8 + extra) ds pits sq main uparea mask depth =
+  subbasins_pfafstetter ds pits sq main uparea mask depth.
+Proof. exact TermPfafLoop.subbasins_pfafstetter_terminates. Qed.
+Print Assumptions subbasins_pfafstetter_terminates.
+
+(* core.idxs_seq (breadth-first order from the pits) and core.rank (stack walks), on EVERY closed graph, loops included *)
+Theorem idxs_seq_fuel : forall ds pits, (forall p, In p pits <-> p < size ds /\ dsf ds p = p) -> NoDup pits ->
+  forall extra, bfs ds (size ds + extra) pits nil = idxs_seq ds pits.
+Proof. exact TermRank.idxs_seq_fuel. Qed.
+Print Assumptions idxs_seq_fuel.
+Theorem rank_fuel_terminates : forall ds, wf ds -> forall extra, rank_fuel ds (size ds + extra) = rank ds.
+Proof. exact TermRank.rank_fuel_terminates. Qed.
+Print Assumptions rank_fuel_terminates.
+
+(* dem.fill_depressions (priority flood): NO hypothesis -- every cell is queued at most once, so after at most
+   nrow * ncol pops the queue is empty *)
+Theorem flood_iterations : forall nrow ncol elv nodata conn mode pits,
+  fq (flood_loop nrow ncol elv conn (nrow * ncol) (flood_init nrow ncol elv nodata conn mode pits)) = nil /\
+  (forall fuel, flood_pops nrow ncol elv conn fuel (flood_init nrow ncol elv nodata conn mode pits) <= nrow * ncol).
+Proof. exact TermFlood.flood_iterations. Qed.
+Print Assumptions flood_iterations.
+Theorem fill_depressions_terminates : forall nrow ncol elv nodata conn mode pits extra,
+  fill_depressions_fuel (S (nrow * ncol) + extra) nrow ncol elv nodata conn mode pits =
+  fill_depressions nrow ncol elv nodata conn mode pits.
+Proof. exact TermFlood.fill_depressions_terminates. Qed.
+Print Assumptions fill_depressions_terminates.
+
+(* gis_utils.spread2d: with non-negative step lengths and friction at most 9 x the number of cells entries are ever
+   popped and the queue runs empty; with a NEGATIVE friction value it does not (refuted below: outside the domain) *)
+Theorem spread_iterations : forall nrow ncol obs msk nodata frc dx dy hyp,
+  (0 <= dx)%Z -> (0 <= dy)%Z -> (0 <= hyp)%Z ->
+  (forall i, (0 <= match frc with Some fr => nth i fr 1%Z | None => 1%Z end)%Z) -> length obs = nrow * ncol ->
+  s_q (sloop nrow ncol obs msk frc dx dy hyp (9 * (nrow * ncol)) (spread_init nrow ncol obs msk nodata)) = nil /\
+  (forall fuel, spread_pops nrow ncol obs msk frc dx dy hyp fuel (spread_init nrow ncol obs msk nodata) <= 9 * (nrow * ncol)).
+Proof. exact TermSpread.spread_iterations. Qed.
+Print Assumptions spread_iterations.
+Theorem spread2d_terminates : forall nrow ncol obs msk nodata frc dx dy hyp,
+  (0 <= dx)%Z -> (0 <= dy)%Z -> (0 <= hyp)%Z ->
+  (forall i, (0 <= match frc with Some fr => nth i fr 1%Z | None => 1%Z end)%Z) -> length obs = nrow * ncol ->
+  forall extra, spread2d_fuel (10 * (nrow * ncol) + 10 + extra) nrow ncol obs msk nodata frc dx dy hyp =
+                spread2d nrow ncol obs msk nodata frc dx dy hyp.
+Proof. exact TermSpread.spread2d_terminates. Qed.
+Print Assumptions spread2d_terminates.
+Theorem spread_negative_friction_refuted :
+  exists nrow ncol obs frc dx dy hyp, length obs = nrow * ncol /\ (0 <= dx)%Z /\ (0 <= dy)%Z /\ (0 <= hyp)%Z /\
+    s_q (sloop nrow ncol obs None frc dx dy hyp (10 * (nrow * ncol) + 10) (spread_init nrow ncol obs None 0%Z)) <> nil /\
+    spread2d_fuel (10 * (nrow * ncol) + 11) nrow ncol obs None 0%Z frc dx dy hyp <> spread2d nrow ncol obs None 0%Z frc dx dy hyp.
+Proof. exact TermSpread.spread_negative_friction_refuted. Qed.
+Print Assumptions spread_negative_friction_refuted.
